@@ -674,6 +674,7 @@ func c03Hist(c *h.Ctx) error {
 				case "M":
 					p := h.Guard(func() { out, oerr = m.Marshal() })
 					c.Exec(1)
+					c.Retain("message.Message.Marshal", out, smp)
 					if p != "" || oerr != nil {
 						if last {
 							c.Fail(site+".Marshal", "repeat:marshal-error", fmt.Sprintf("history %v: %s %v", e.Hist, p, oerr), smp)
